@@ -339,6 +339,13 @@ fn check_doc(ctx: &mut Ctx, t: &Doc, origin: &Value, seed: u64) {
             "xml": r0.xml, "harness": pretty(&format!("({})", r0.sax.join(","))), "lean": pretty(&lean_sax)}));
     }
     ctx.rep.sample(json!({"xml": r0.xml}));
+    // the generator must stay inside the hypothesis of C04_full
+    if ctx.model.ask(&format!("reader wf {}", sx_doc(t))) == "1" {
+        ctx.rep.count("docs_satisfying_wfDoc");
+    } else {
+        ctx.rep.count("docs_outside_wfDoc");
+        ctx.rep.disagree(json!({"origin": origin, "what": "generated document does not satisfy wfDoc (hypothesis of C04_full)", "xml": r0.xml}));
+    }
 
     let d0 = match &i0 {
         Out::Ok(d) => d.clone(),
